@@ -24,6 +24,7 @@ ROOT = os.path.dirname(os.path.dirname(os.path.abspath(__file__)))
 PROPS = {
     "C01": "vf.harness.deser_e2e",
     "C02": "vf.harness.deser_e2e",
+    "C03": "vf.harness.C03",
 }
 
 
